@@ -234,22 +234,214 @@ def _boundary_valid(mod, valid, per_module=40):
     return out
 
 
+class _Oracle:
+    """is_valid() of one module with a cap on the number of calls (synthesis must stay cheap for every module)"""
+
+    def __init__(self, mod, budget):
+        self.mod, self.left = mod, budget
+
+    def __call__(self, s):
+        if self.left <= 0:
+            return False
+        self.left -= 1
+        try:
+            return self.mod.is_valid(s) is True
+        except Exception:   # noqa: B902
+            return False
+
+
+_D10 = '0123456789'
+_UP26 = 'ABCDEFGHIJKLMNOPQRSTUVWXYZ'
+# where a format may keep its check character(s): nowhere / the last character / positions 2-3 after a two letter
+# prefix (IBAN, ISO 11649, SEPA creditor id) / the last two digits
+_REPAIR_SCHEMES = ('none', 'last1', 'pos23', 'last2')
+
+
+def _repair_positions(scheme, s):
+    n = len(s)
+    if scheme == 'last1' and n >= 2:
+        return (n - 1,)
+    if scheme == 'pos23' and n >= 5 and s[:2].isalpha():
+        return (2, 3)
+    if scheme == 'last2' and n >= 3:
+        return (n - 2, n - 1)
+    return ()
+
+
+def _repair(ok, s, scheme):
+    """s, or s with the characters at the repair positions of `scheme` replaced, whichever is_valid() accepts first"""
+    if ok(s):
+        return s
+    pos = _repair_positions(scheme, s)
+    if not pos:
+        return None
+    if len(pos) == 1:
+        i = pos[0]
+        for ch in _D10 + 'X' + _UP26:
+            t = s[:i] + ch + s[i + 1:]
+            if t != s and ok(t):
+                return t
+        return None
+    i, j = pos
+    for a in _D10:
+        for b in _D10:
+            t = s[:i] + a + s[i + 1:j] + b + s[j + 1:]
+            if t != s and ok(t):
+                return t
+    return None
+
+
+def _learn_scheme(ok, c):
+    """the repair scheme that makes single-digit changes of the valid number c valid again (None: none found)"""
+    cand = [i for i in range(len(c)) if c[i] in _D10 and i not in (2, 3) and i < len(c) - 2] or \
+        [i for i in range(len(c) - 1) if c[i] in _D10]
+    if not cand:
+        return None
+    # six single-digit changes; a scheme is only adopted when it repairs every one of them (a wrong scheme repairs a
+    # mod 97 number by luck in about one case out of three, so one trial is not enough)
+    trials = []
+    for k, i in enumerate([cand[len(cand) // 2], cand[0], cand[-1], cand[len(cand) // 3], cand[(2 * len(cand)) // 3],
+                           cand[len(cand) // 2]]):
+        d = '7391'[k % 4]
+        t = c[:i] + (d if c[i] != d else '5') + c[i + 1:]
+        if t not in trials:
+            trials.append(t)
+    broken = [t for t in trials if not ok(t)]
+    if not broken:
+        return 'none'
+    fixes = [[scheme for scheme in _REPAIR_SCHEMES[1:] if _repair(ok, t, scheme)] for t in broken]
+    fixes = [f for f in fixes if f]      # changes that no scheme repairs broke something else (a date, a range)
+    if len(fixes) < 2:
+        return None
+    for scheme in _REPAIR_SCHEMES[1:]:
+        if all(scheme in f for f in fixes):
+            return scheme
+    return None
+
+
+def _saturate(ok, s, scheme):
+    """greedily turn every digit of s into the letter Z where the format (probed through is_valid, check
+    characters repaired) allows a letter: numbers whose letter-expanded form is as long as the format permits"""
+    hits = 0
+    for i in range(len(s)):
+        if s[i] not in _D10 or i in _repair_positions(scheme, s):
+            continue
+        r = _repair(ok, s[:i] + 'Z' + s[i + 1:], scheme)
+        if r is not None:
+            s = r
+            hits += 1
+    return s, hits
+
+
+def _extend(ok, s, scheme, fill, maxlen=128):
+    """longest admissible number (<= maxlen) reached by inserting runs of `fill` into s; every length reached by
+    the doubling steps is returned (they are all valid)"""
+    out = []
+    n = len(s)
+    spots = [n // 2, n - 1, n - 2, 4, 1, n]
+    for p in spots:
+        if not 0 < p <= n:
+            continue
+        if scheme == 'pos23' and p < 4:
+            continue            # never push prefix-anchored check digits away from their place
+        r = _repair(ok, s[:p] + fill + s[p:], scheme)
+        if r is None:
+            continue
+        back = len(s) - p       # keep inserting at the same distance from the end
+        s = r
+        out.append(s)
+        m = len(s)
+        while m >= 1 and len(s) < maxlen:
+            m = min(m, maxlen - len(s))
+            q = len(s) - back
+            r = _repair(ok, s[:q] + fill * m + s[q:], scheme)
+            if r is not None:
+                s = r
+                out.append(s)
+                m = len(s)
+            else:
+                m //= 2
+        break
+    return out
+
+
+def _extremal_valid(mod, valid, budget=250000, max_groups=120):
+    """synthesised valid numbers at the edges of the *shape* space (complementing _boundary_valid, which works on
+    the payload values): per leading country prefix / length group the number with a letter at every position where
+    the format admits one, and for formats of variable length the longest admissible numbers (up to 128
+    characters).  Everything is found by probing the real is_valid(); check characters are repaired by brute force."""
+    ok = _Oracle(mod, budget)
+    canon, seen = [], set()
+    for v in valid:
+        try:
+            c = mod.validate(v)
+        except Exception:   # noqa: B902
+            continue
+        if isinstance(c, str) and 3 <= len(c) <= 64 and c not in seen and c.isascii() and c.isalnum():
+            seen.add(c)
+            canon.append(c)
+    if not canon:
+        return []
+    scheme = None
+    for c in canon[:3]:
+        scheme = _learn_scheme(ok, c)
+        if scheme is not None:
+            break
+    if scheme is None:
+        return []
+    groups = {}
+    for c in canon:
+        pre = c[:2] if len(c) > 4 and c[:2].isalpha() and c[2:4].isdigit() else ''
+        groups.setdefault((pre, len(c)), c)
+    reps = list(groups.values())[:max_groups]
+    out = []
+    letters = any(ch in _UP26 for c in canon for ch in c[2:])
+    best = None
+    if letters:
+        for c in reps:
+            s, hits = _saturate(ok, c, scheme)
+            if hits:
+                out.append(s)
+                if best is None or len(s) > len(best):
+                    best = s
+    longest = max(reps, key=len)
+    ext = _extend(ok, longest, scheme, '9')
+    out.extend(ext)
+    if best is not None:
+        out.extend(_extend(ok, best, scheme, 'Z')[-2:])
+        if ext:
+            s, hits = _saturate(ok, ext[-1], scheme)
+            if hits:
+                out.append(s)
+    res, have = [], set(valid)
+    for s in out:
+        if s not in have:
+            have.add(s)
+            res.append(s)
+    return res
+
+
 _corpus = None
+CORPUS_VERSION = 2      # bump when the content of the corpus changes (the cache is keyed by version and tree hash)
+_KEEP_CACHES = 60
 
 
 def corpus(max_per_module=400):
-    """{module name: {'valid': [...], 'invalid': [...]}} mined from docstrings and tests/*.doctest,
-    classified by the real is_valid() of the current tree.  Cached per tree hash under work/."""
+    """{module name: {'valid': [...], 'invalid': [...], 'extremal': [...]}}: 'valid'/'invalid' mined from docstrings
+    and tests/*.doctest, classified by the real is_valid() of the current tree (plus synthesised boundary values);
+    'extremal' = synthesised valid numbers of extreme shape (_extremal_valid).  Cached per tree hash under work/."""
     global _corpus
     if _corpus is not None:
         return _corpus
     os.makedirs(WORK, exist_ok=True)
     key = tree_hash()
-    cache = os.path.join(WORK, 'corpus-%s.json' % key[:16])
-    if os.path.exists(cache):
+    cache = os.path.join(WORK, 'corpus-v%d-%s.json' % (CORPUS_VERSION, key[:16]))
+    try:
         with open(cache) as f:
             _corpus = json.load(f)
         return _corpus
+    except (OSError, ValueError):
+        pass
     res = {}
     with frozen_today(datetime.date(2026, 9, 26)):
         for mod in number_modules():
@@ -262,21 +454,40 @@ def corpus(max_per_module=400):
                 (valid if ok else invalid).append(s)
             valid = valid[:max_per_module]
             valid += [b for b in _boundary_valid(mod, valid) if b not in set(valid)]
-            res[mod.__name__] = {'valid': valid, 'invalid': invalid[:max_per_module]}
-    for old in glob.glob(os.path.join(WORK, 'corpus-*.json')):
+            res[mod.__name__] = {'valid': valid, 'invalid': invalid[:max_per_module],
+                                 'extremal': _extremal_valid(mod, valid)}
+    # trees under test come and go (seeded changes run in scratch worktrees, possibly in parallel): keep the most
+    # recent caches instead of deleting everybody else's
+    old = sorted(glob.glob(os.path.join(WORK, 'corpus-*.json')), key=lambda p: (_mtime(p), p))
+    for path in old[:max(0, len(old) - _KEEP_CACHES)]:
         try:
-            os.remove(old)
+            os.remove(path)
         except OSError:
             pass
-    with open(cache, 'w') as f:
+    tmp = cache + '.tmp%d' % os.getpid()
+    with open(tmp, 'w') as f:
         json.dump(res, f)
+    os.replace(tmp, cache)
     _corpus = res
     return res
+
+
+def _mtime(path):
+    try:
+        return os.path.getmtime(path)
+    except OSError:
+        return 0
 
 
 def valid_numbers(modname, limit=None):
     c = corpus().get(modname, {}).get('valid', [])
     return c[:limit] if limit else c
+
+
+def extremal_numbers(modname):
+    """synthesised valid numbers of extreme shape (letters wherever the format admits them, longest admissible
+    lengths); see _extremal_valid"""
+    return corpus().get(modname, {}).get('extremal', [])
 
 
 # ----------------------------------------------------------------------------- hostile material
